@@ -2,6 +2,6 @@ SPECIFICATION Spec
 CONSTANT MaxT = 4
 CONSTANT MaxR = 1
 CONSTANT MaxF = 1
-CONSTANT MCKinds = {"plain", "defer"}
+CONSTANT KindSet = "simple"
 INVARIANT ReachWaitingTwo
 CHECK_DEADLOCK FALSE
